@@ -80,6 +80,14 @@ def parseFilter (s : String) : Option (Edge → Bool) :=
 
 def tsFuel : Nat := 200000
 
+/-- the weight the tie's descent filter gives an admitted edge -/
+def edgeWeight (e : Edge) : Nat := 1 + e.id % 3
+
+def parseWFilter (s : String) : Option (Edge → Option Nat) :=
+  (parseFilter s).map (fun f => fun e => if f e then some (edgeWeight e) else none)
+
+def fmtPTerm (t : PTerm) : String := s!"{t.node}@{t.dist}*{t.weight}"
+
 def St.adjE (st : St) : String → Option (Nat → Dir → List Edge)
   | "ts" => some st.ts.adjacentEdges
   | "proj" => some st.curProj.adjacentEdges
@@ -92,6 +100,21 @@ def traverse (st : St) (bfs : Bool) (c dir md root filt : String) : String :=
     | some (segs, inc) => s!"inc={inc} " ++ (if segs.isEmpty then "-" else "|".intercalate (segs.map fmtSeg))
     | none => "fuel-exhausted"
   | _, _, _, _, _ => "bad-op"
+
+def stateless (st : St) (c dir md root filt : String) : String :=
+  match st.adjE c, parseDir dir, md.toInt?, root.toNat?, parseWFilter filt with
+  | some adjE, some d, some md, some root, some f =>
+    match statelessBFS st.fixed (fun n => adjE n d) d f md tsFuel root with
+    | some (ts, inc) => s!"inc={inc} " ++ (if ts.isEmpty then "-" else "|".intercalate (ts.map fmtPTerm))
+    | none => "fuel-exhausted"
+  | _, _, _, _, _ => "bad-op"
+
+def St.numEdges (st : St) : String → Option Nat
+  | "am" => some st.am.numEdges
+  | "csr" => some st.csrb.build.numEdges
+  | "ts" => some st.ts.numEdges
+  | "proj" => some st.curProj.numEdges
+  | _ => none
 
 def step (st : St) (ts : List String) : St × String :=
   match ts with
@@ -160,6 +183,13 @@ def step (st : St) (ts : List String) : St × String :=
       | _, _ => (st, "bad-op")
   | ["tsbfs", c, d, md, root, filt] => (st, traverse st true c d md root filt)
   | ["tsdfs", c, d, md, root, filt] => (st, traverse st false c d md root filt)
+  | ["tssl", c, d, md, root, filt] => (st, stateless st c d md root filt)
+  | ["numedges", c] => match st.numEdges c with
+      | some n => (st, toString n)
+      | none => (st, "bad-op")
+  | ["dims", c, d] => match st.view c, parseDir d with
+      | some v, some d => let r := dimensions v.nodes v.numNodes (fun n => v.adj n d); (st, s!"{r.1} {r.2}")
+      | _, _ => (st, "bad-op")
   | ["zone", md, ids] => match md.toInt?, parseIds ids with
       -- WriteZoneBFSTree + BFSTreeFile.ReadEach AS THE CODE IS: ReadEach scans the raw file behind the
       -- gzip reader's buffer and therefore yields nothing for files under one 4096-byte buffer (F3).
